@@ -206,6 +206,8 @@ def _merge_and_report(pid, mod, tier, seed, outs, t0, is_replay=False) -> int:
 
     required = [] if is_replay else list(getattr(mod, "REQUIRED_OBS", []))
     for name in required:
+        if name.startswith("reach:") and obs.get("reach_skipped:" + name[6:], 0) > 0:
+            continue  # the anchored function no longer exists (refactoring): the probe is skipped, never failed
         if obs.get(name, 0) <= 0:
             inconclusive.append(f"deciding monitor/probe '{name}' observed nothing")
     if not is_replay:
